@@ -383,6 +383,28 @@ impl Graph {
         entries.push((None, None, Expr::lit(&res)));
         Expr::Context(entries)
       }
+      // the logic's expression is the output entry of the matching rule, or - for every other table - the default output
+      // entry of a table in which no rule matches
+      Kind::Table if core.len() % 2 == 1 => Expr::Table(dmn::Table {
+        hit_policy: "UNIQUE".into(),
+        aggregation: None,
+        output_label: None,
+        inputs: vec![dmn::TableInput {
+          expr: "\"k\"".into(),
+          type_ref: None,
+          values: None,
+        }],
+        outputs: vec![dmn::TableOutput {
+          name: None,
+          type_ref: None,
+          values: None,
+          default: Some(core),
+        }],
+        rules: vec![dmn::TableRule {
+          inputs: vec!["\"j\"".into()],
+          outputs: vec!["\"wrong rule\"".into()],
+        }],
+      }),
       Kind::Table => Expr::Table(dmn::Table {
         hit_policy: "UNIQUE".into(),
         aggregation: None,
